@@ -10,6 +10,7 @@ package main
 //	intDiv(x, n) * m                       -> Sep " * " [Fn intDiv [Id x; IntV n]; IntV m]
 //	mapFilter((k,v) -> k [NOT] IN (..), c) -> Sep "" [Raw; Raw op; Raw; Sep "," names; Raw; c; Raw]
 //	mapFilter((k,v) -> 0, c)               -> Sep "" [Raw "mapFilter((k,v) -> 0, "; c; Raw ")"]
+//	arraySlice(arraySort([lambda,]groupArray((..))), 1, k) -> the seven pieces of LogqlPlan.topk_slice
 //	quantile(p)(value)                     -> Sep "" [Raw "quantile("; Raw p; Raw ")(value)"]
 //	f(path, ...) for aggregate / scalar calls over column paths -> Raw text (SqlEvalAgg parses the call from its text)
 
@@ -49,6 +50,29 @@ func ntext(n *sqlparse.Node) string {
 		xs[i] = ntext(k)
 	}
 	return n.S + "(" + strings.Join(xs, ", ") + ")"
+}
+
+var reTopK = regexp.MustCompile(`^arraySlice\(arraySort\((x -> \(-?x\.1, x\.2(?:, x\.3)?\),)?groupArray\(\(par_a\.value, par_a\.fingerprint(, par_a\.labels)?\)\)\), 1, (\d+)\)$`)
+
+// ntextAny: the text of a call tree whose leaves may be raw
+func ntextAny(n *sqlparse.Node) string {
+	switch n.Kind {
+	case "id", "raw":
+		return n.S
+	case "int":
+		return strconv.FormatInt(n.Z, 10)
+	case "fn":
+		xs := make([]string, len(n.Kids))
+		for i, k := range n.Kids {
+			xs[i] = ntextAny(k)
+		}
+		return n.S + "(" + strings.Join(xs, ", ") + ")"
+	case "lop": // a parenthesised group read as a one-clause LogicalOp
+		if len(n.Kids) == 1 {
+			return "(" + ntextAny(n.Kids[0]) + ")"
+		}
+	}
+	return "\x00"
 }
 
 func raw(s string) *sqlparse.Node { return &sqlparse.Node{Kind: "raw", S: s} }
@@ -144,6 +168,14 @@ func mnorm(n *sqlparse.Node) *sqlparse.Node {
 		}
 		return n
 	case "fn":
+		if n.S == "arraySlice" { // TopKPlanner's slice column, in the seven pieces of LogqlPlan.topk_slice
+			if m := reTopK.FindStringSubmatch(ntextAny(n)); m != nil {
+				if k, err := strconv.ParseInt(m[3], 10, 64); err == nil {
+					return &sqlparse.Node{Kind: "sep", S: "", Kids: []*sqlparse.Node{raw("arraySlice(arraySort("), raw(m[1]),
+						raw("groupArray((par_a.value, par_a.fingerprint"), raw(m[2]), raw("))), 1, "), {Kind: "int", Z: k}, raw(")")}}
+				}
+			}
+		}
 		if callNames[n.S] && pure(n) {
 			return raw(ntext(n))
 		}
